@@ -326,6 +326,19 @@ func c01Body(cfg c01Cfg, sc c01Scn, res *string) func(x *sched.Exec) {
 		for k := 0; k < 8; k++ {
 			sched.SpinYield()
 		}
+		// a drop needs a full queue: with no more queue entries (sampled spans and flush markers) than
+		// the queue holds, nothing can have been dropped
+		entries := 0
+		for _, ops := range append(append([][]string{}, sc.threads...), sc.tail) {
+			for _, op := range ops {
+				if strings.HasPrefix(op, "E:") || strings.HasPrefix(op, "RE:") || op == "F" || op == "Fc" || op == "PF" || op == "PFc" {
+					entries++
+				}
+			}
+		}
+		if entries <= cfg.q && bsp.dropped > 0 {
+			x.Fail("C01|dropped-although-the-queue-had-room", "%d span(s) counted as dropped; the scenario puts %d entries into a queue of %d", bsp.dropped, entries, cfg.q)
+		}
 		var keys []string
 		for _, b := range e.batches {
 			keys = append(keys, fmt.Sprint(b))
